@@ -44,8 +44,11 @@ Inductive stmt :=
 | SNewArray (a : nat) (len : nat) (init : option (list (option Z)))
 | SFutAdd (a : nat) (ix : index) (o : addsrc) (m : option Z)
 | SRegAdd (r : nat) (o : addsrc) (m : option Z)
+| SNewReg (r : nat) (init : Z)               (* rf_r = builder.new_register(init): claimed for the rest of the connection *)
+| SUAdd (r : nat) (o : addsrc) (m : option Z)   (* rf_r.add(..) on such a register *)
 | SIf (c : cond) (cb : bool) (x y : cval) (body : block)
-| SLoop (cb : bool) (v : nat) (start stop step : Z) (body : block)
+| SLoop (cb : bool) (v : nat) (oreg : option nat) (start stop step : Z) (body : block)
+      (* oreg: loop_register=R_k given by the program *)
 | SForeach (enum : bool) (v : nat) (a : nat) (body : block)
 | SLoopUntil (v : nat) (maxit : Z) (body : block) (cx : cval) (bound : Z) (cleanup : block)
 | SEpr (k : eprkind) (body : block)
@@ -68,7 +71,7 @@ Fixpoint bapp (a b : block) : block :=
 (* nesting depth of open operations *)
 Fixpoint depth (s : stmt) : nat :=
   match s with
-  | SIf _ _ _ _ b | SLoop _ _ _ _ _ b | SForeach _ _ _ b | SEpr _ b => S (bdepth b)
+  | SIf _ _ _ _ b | SLoop _ _ _ _ _ _ b | SForeach _ _ _ b | SEpr _ b => S (bdepth b)
   | SLoopUntil _ _ b _ _ cl => S (Nat.max (bdepth b) (bdepth cl))
   | _ => 0
   end
@@ -79,17 +82,29 @@ with bdepth (b : block) : nat :=
 Fixpoint noflush (s : stmt) : bool :=
   match s with
   | SFlush => false
-  | SIf _ _ _ _ b | SLoop _ _ _ _ _ b | SForeach _ _ _ b | SEpr _ b => bnoflush b
+  | SIf _ _ _ _ b | SLoop _ _ _ _ _ _ b | SForeach _ _ _ b | SEpr _ b => bnoflush b
   | SLoopUntil _ _ b _ _ cl => bnoflush b && bnoflush cl
   | _ => true
   end
 with bnoflush (b : block) : bool :=
   match b with BNil => true | BCons s r => noflush s && bnoflush r end.
 
+(* only default register choices: no loop_register=..., no new_register *)
+Fixpoint plain (s : stmt) : bool :=
+  match s with
+  | SNewReg _ _ | SUAdd _ _ _ => false
+  | SLoop _ _ (Some _) _ _ _ _ => false
+  | SIf _ _ _ _ b | SLoop _ _ None _ _ _ b | SForeach _ _ _ b | SEpr _ b => bplain b
+  | SLoopUntil _ _ b _ _ cl => bplain b && bplain cl
+  | _ => true
+  end
+with bplain (b : block) : bool :=
+  match b with BNil => true | BCons s r => plain s && bplain r end.
+
 Fixpoint noepr (s : stmt) : bool :=
   match s with
   | SEpr _ _ => false
-  | SIf _ _ _ _ b | SLoop _ _ _ _ _ b | SForeach _ _ _ b => bnoepr b
+  | SIf _ _ _ _ b | SLoop _ _ _ _ _ _ b | SForeach _ _ _ b => bnoepr b
   | SLoopUntil _ _ b _ _ cl => bnoepr b && bnoepr cl
   | _ => true
   end
